@@ -180,6 +180,19 @@ def run_s2c(prop, tier, seed, opts):
                     c2, r2, _ = V.validate_trace(scratch, st["trace"]["module"], st["trace"]["cfg"], mut, sub="trace-self")
                     if 8 not in r2:
                         raise V.Broken("binding self-test: corrupted observation line was accepted by %s" % st["trace"]["module"])
+            if st.get("processes", 1) > 1:
+                # the same cases in further sets of fresh processes: every case must give the same outcome
+                base = {r.get("key"): r.get("digest") for r in results}
+                for pi in range(1, st["processes"]):
+                    again = V.replay(harness, res["cases"], scratch.path("res-%s-p%d.ndjson" % (st["name"], pi)),
+                                     limit=st.get("limit", "5s"), cmd=st.get("cmd", "replay"), nworkers=max(1, V.NCPU - 3 * pi))
+                    for r2 in again:
+                        if base.get(r2.get("key")) != r2.get("digest"):
+                            for r in results:
+                                if r.get("key") == r2.get("key") and r["pass"]:
+                                    r["pass"] = False
+                                    r.setdefault("fails", []).append(dict(run="process-%d" % (pi + 1), why="differs-across-processes",
+                                                                          got=r2.get("src"), want="", src=r2.get("src") or ""))
             with open(res["cases"]) as f:
                 case_lines = {}
                 for l in f:
